@@ -12,16 +12,16 @@ import OccaModel.Json
 namespace Occa.Json
 
 /-- `lex::skipTo(c, '/', '\\')`: the skipped segment and the cursor.  A backslash skips itself and
-    the following character (both stay in the segment). -/
-def takeSeg : Bytes → Bytes → Bytes × Bytes
-  | [], acc => (acc, [])
-  | c :: r, acc =>
-    if c = cBackslash then
-      match r with
-      | [] => (acc ++ [c], [])
-      | d :: r' => takeSeg r' (acc ++ [c, d])
+    the following character (both stay in the segment); `esc` = the previous character was a backslash. -/
+def takeSegE : Bool → Bytes → Bytes → Bytes × Bytes
+  | _, [], acc => (acc, [])
+  | true, d :: r, acc => takeSegE false r (acc ++ [d])
+  | false, c :: r, acc =>
+    if c = cBackslash then takeSegE true r (acc ++ [c])
     else if c = cSlash then (acc, c :: r)
-    else takeSeg r (acc ++ [c])
+    else takeSegE false r (acc ++ [c])
+
+def takeSeg (s acc : Bytes) : Bytes × Bytes := takeSegE false s acc
 
 /-- the keys visited by `while (*c != '\0') { skipTo; key; if (*c == '/') ++c; … }` -/
 def splitPathF : Nat → Bytes → List Bytes
